@@ -328,3 +328,20 @@ def replay_cases(args, cases, make=None):
     if make:
         return [make(*rc)]
     return [tuple(rc)]
+
+
+def require_standin_validated(chk):
+    """trusted-base monitor for the pyscan engine: the stand-in C front end plus the scanner passes of the tree under test must still
+    reproduce the upstream expected GIRs (vt/selftest.py); otherwise the verdict of a pyscan check is not trustworthy -> inconclusive"""
+    def job(_):
+        from . import selftest
+        return {'r': selftest.run()}
+    res = None
+    for _, c, r in forkmap(job, [0], isolated=True, timeout=300):
+        res = r
+    if not isinstance(res, dict) or 'r' not in res:
+        chk.require(False, 'stand-in self-test did not run: %r' % (str(res)[:300],))
+        return
+    bad = [n for n, ok in res['r'] if not ok]
+    chk.monitor_hits['standin_expected_girs_reproduced'] += len(res['r']) - len(bad)
+    chk.require(not bad, 'the stand-in front end + scanner no longer reproduce upstream expected GIRs: %r' % bad)
